@@ -750,6 +750,10 @@ pub fn run(ctx: &Ctx) -> Report {
             if generated && hist_done < n_hist {
                 hist_done += 1;
                 history_exploration(&mut rep, p, &dir, tl, &mut r, m_exh, n_random, 30);
+                // the compiler-generated helpers only exist when traces are kept: explore that level too
+                if tl != 2 {
+                    history_exploration(&mut rep, p, &dir, 2, &mut r, 3, n_random, 30);
+                }
             } else {
                 // cheap version everywhere: random histories only
                 history_exploration(&mut rep, p, &dir, tl, &mut r, 2, if generated { n_random } else { 3 }, 12);
